@@ -329,6 +329,8 @@ def zero_value(ty):
         return VTuple([zero_value(t) for t in ty.items])
     if isinstance(ty, TRec):
         return VRec(ty, {n: zero_value(t) for n, t in ty.fields.items()})
+    if ty == ANY:
+        return fresh_default(ANY)
     raise Unsupported("no zero value for %s" % ty)
 
 
@@ -341,6 +343,9 @@ def ite(c, a, b):
     """Merge two values under condition c."""
     if a is b:
         return a
+    if a.ty != b.ty and {a.ty, b.ty} <= {INT, REAL, BOOL}:
+        t = REAL if REAL in (a.ty, b.ty) else INT
+        return ite(c, coerce(a, t), coerce(b, t))
     if a.ty != b.ty:
         # None vs T / opt[T] vs T
         base = None
